@@ -87,7 +87,10 @@ structure Ctl where
   already : Bool := false
   paused : Bool := false          -- ghost: a pause has been acknowledged and neither resume nor shutdown issued since
   stopped : Bool := false         -- `_running = False`
-  mustStop : Bool := false        -- saw an exception flag / an exception unwinds the control loop
+  mustStop : Bool := false        -- saw an exception flag / an exception unwinds the control loop (sticky)
+  cause : Bool := false           -- ghost: a SHUTDOWN command was dequeued or the uptime limit was reached
+  faultSeen : Bool := false       -- ghost: an exception flag of a background thread was read set
+  ctlFault : Bool := false        -- ghost: an exception / interrupt unwound the control loop
   holds : Bool := false           -- holds the resume lock
   inCb : Bool := false            -- a save callback is executing in the control thread
   saves : Nat := 0
@@ -122,6 +125,8 @@ inductive Act
   | cShutdown | cShutdownRet
   | cSave | cSaveBegin | cSaveCbBegin | cSaveCbEnd | cSaveEnd | cSaveRet
   | cReadExc (t : Nat) (v : Bool)
+  | cCmdShutdown               -- the drain loop dequeued SHUTDOWN
+  | cUptime                    -- the uptime test `now - start > max_uptime` came out true
   | cExc                       -- an exception / interrupt unwinds the control loop
   | cJoin (t : Nat)
   | cFinalSaveBegin | cFinalSaveEnd | cReturn
@@ -309,14 +314,22 @@ def cstep (s : St) : Act → Option St
       some { s with ctl := { s.ctl with pc := match s.ctl.rsCont with | .cmd => .idle | .save => .svRet } }
     else none
   | .cShutdown =>
-    if s.ctl.pc = .idle then some { s with ctl := { s.ctl with pc := .sdClock, paused := false } }
+    -- `shutdown()` is called for a cause only: a SHUTDOWN command, the uptime limit, a fault seen
+    -- or unwinding, or (again, harmlessly) from `on_finally` once the loop has been stopped
+    if s.ctl.pc = .idle ∧ (s.ctl.cause = true ∨ s.ctl.mustStop = true ∨ s.ctl.stopped = true) then
+      some { s with ctl := { s.ctl with pc := .sdClock, paused := false } }
     else none
+  | .cCmdShutdown =>
+    if s.ctl.pc = .idle ∧ s.ctl.stopped = false then some { s with ctl := { s.ctl with cause := true } }
+    else none
+  | .cUptime =>
+    if s.ctl.pc = .idle then some { s with ctl := { s.ctl with cause := true } } else none
   | .cSetShutdown =>
     if s.ctl.pc = .sdShut then some { s with shutdown := true, ctl := { s.ctl with pc := .sdDone } }
     else none
   | .cShutdownRet =>
     if s.ctl.pc = .sdDone then
-      some { s with ctl := { s.ctl with pc := .idle, stopped := true, mustStop := false } }
+      some { s with ctl := { s.ctl with pc := .idle, stopped := true } }
     else none
   | .cSave =>
     if s.ctl.pc = .idle ∧ s.ctl.stopped = false ∧ s.ctl.mustStop = false then
@@ -343,13 +356,14 @@ def cstep (s : St) : Act → Option St
     match s.thr[t]? with
     | some th =>
       if s.ctl.pc = .idle ∧ v = th.excFlag then
-        some { s with ctl := { s.ctl with mustStop := s.ctl.mustStop || v } }
+        some { s with ctl := { s.ctl with mustStop := s.ctl.mustStop || v,
+                                          faultSeen := s.ctl.faultSeen || v } }
       else none
     | none => none
   | .cExc =>
     -- an exception or interrupt leaves whatever the control loop was doing; `on_finally` follows
     if s.ctl.pc ≠ .boot ∧ s.ctl.pc ≠ .returned ∧ s.ctl.pc ≠ .finalIn ∧ s.ctl.stopped = false then
-      some { s with ctl := { s.ctl with pc := .idle, mustStop := true, inCb := false } }
+      some { s with ctl := { s.ctl with pc := .idle, mustStop := true, ctlFault := true, inCb := false } }
     else none
   | .cJoin t =>
     match s.thr[t]? with
